@@ -21,7 +21,11 @@
 //!   [6 special-files]  pkg/pipe.slice (a FIFO)  sub/null.slice -> /dev/null   (only in the two trees of the
 //!                      `special` family: exist, named *.slice, neither a regular file nor a directory; listed
 //!                      directly they cannot be "compiled once", so an E001 is demanded and nothing is parsed -
-//!                      slicec used to drop them without a word; below a reference directory: softening (iii))
+//!                      slicec used to drop them without a word; below a reference directory: softening (iii));
+//!                      odd/n<0xFF>.slice (a readable Slice file whose NAME is not valid UTF-8), odd/n<U+FFFD>.slice
+//!                      (the name a lossy conversion makes of it) and odd/plain.slice: reaching the first is an
+//!                      E001 and nothing is parsed - slicec used to compile the twin in its place, with a
+//!                      DuplicateFile warning about a duplicate that does not exist and exit status 0
 //! ```
 //! `sub` is kept small on purpose: below the cycle the real walk visits it 41 times per way in, with paths of
 //! up to 40 links, which costs ~1 ms per expansion (measured) — everything else costs ~45 µs per scenario.
@@ -100,7 +104,12 @@ enum Kind {
     Fifo,
     /// ... or a link to the device /dev/null
     Device,
+    /// a regular, readable Slice file whose NAME is not valid UTF-8 (in the model the invalid byte is written as the
+    /// marker U+0001; on disk it is the byte 0xFF)
+    BadName,
 }
+/// stands for the byte 0xFF in a model name
+const BAD_BYTE_MARKER: char = '\u{1}';
 
 #[derive(Clone, Debug)]
 enum Node {
@@ -153,6 +162,10 @@ fn model_tree(bits: u32) -> Node {
     if bits & SPECIAL_BIT != 0 {
         insert(&mut root, "pkg/pipe.slice", Node::File(Kind::Fifo));
         insert(&mut root, "sub/null.slice", Node::File(Kind::Device));
+        // a file whose name is not valid UTF-8 next to the file whose name is what a lossy conversion makes of it
+        insert(&mut root, &format!("odd/n{BAD_BYTE_MARKER}.slice"), Node::File(Kind::BadName));
+        insert(&mut root, "odd/n\u{fffd}.slice", Node::File(Kind::Slice));
+        insert(&mut root, "odd/plain.slice", Node::File(Kind::Slice));
     }
     root
 }
@@ -199,6 +212,8 @@ fn spellings(bits: u32) -> Vec<String> {
         v.push("pkg/pipe.slice"); // a FIFO listed directly
         v.push("sub/null.slice"); // a link to /dev/null listed directly
         v.push("pkg"); // a directory with the FIFO below it
+        v.push("odd"); // a directory with a file whose name is not valid UTF-8, and its lossy twin
+        v.push("odd/n\u{fffd}.slice"); // the twin listed directly
     }
     v.into_iter().map(String::from).collect()
 }
@@ -433,6 +448,19 @@ fn materialise(dir: &PathBuf, canon: &mut Vec<String>, node: &Node) {
                 assert_eq!(unsafe { libc::mkfifo(c.as_ptr(), 0o644) }, 0, "c17: mkfifo");
             }
             Node::File(Kind::Device) => std::os::unix::fs::symlink("/dev/null", &p).expect("c17: create symlink"),
+            Node::File(Kind::BadName) => {
+                use std::os::unix::ffi::OsStringExt;
+                let mut bytes = dir.as_os_str().to_owned().into_vec();
+                bytes.push(b'/');
+                for ch in name.chars() {
+                    if ch == BAD_BYTE_MARKER {
+                        bytes.push(0xFF);
+                    } else {
+                        bytes.extend(ch.to_string().as_bytes());
+                    }
+                }
+                std::fs::write(std::ffi::OsString::from_vec(bytes), file_text("oddbadname")).expect("c17: write file");
+            }
             Node::Link(t) => std::os::unix::fs::symlink(t, &p).expect("c17: create symlink"),
         }
         canon.pop();
@@ -519,7 +547,7 @@ fn expect(b: &Built, sources: &[usize], references: &[usize]) -> Expect {
                 if !e.src_ids.contains(id) {
                     e.src_ids.push(id.clone());
                 }
-                if *k == Kind::BadUtf8 {
+                if matches!(*k, Kind::BadUtf8 | Kind::BadName) {
                     reached_bad = true;
                 }
             }
@@ -535,16 +563,23 @@ fn expect(b: &Built, sources: &[usize], references: &[usize]) -> Expect {
     let mut nerr = 0usize;
     let mut events = 0usize;
     let mut ref_ids: BTreeSet<Id> = BTreeSet::new();
+    let mut bad_name_reaches = 0usize;
     let mut placed: BTreeSet<Id> = e.src_ids.iter().cloned().collect();
     for &r in references {
         let mut group = BTreeSet::new();
         let mut reach = |id: &Id, k: Kind, group: &mut BTreeSet<Id>| {
+            if k == Kind::BadName {
+                // refused by its name, before identities are compared: an error entry (softening (iv) for its repeats)
+                reached_bad = true;
+                bad_name_reaches += 1;
+                return;
+            }
             events += 1;
             ref_ids.insert(id.clone());
             if placed.insert(id.clone()) {
                 group.insert(id.clone());
             }
-            if k == Kind::BadUtf8 {
+            if matches!(k, Kind::BadUtf8 | Kind::BadName) {
                 reached_bad = true;
             }
         };
@@ -576,13 +611,13 @@ fn expect(b: &Built, sources: &[usize], references: &[usize]) -> Expect {
         e.ref_groups.push(group);
     }
     e.dups_lo += events - ref_ids.len();
-    error_repeats += nerr - errs.len();
+    error_repeats += nerr - errs.len() + bad_name_reaches.saturating_sub(1);
     e.io_required |= nerr > 0;
     all_events += events;
 
     if reached_bad {
         e.io_required = true;
-        e.why_io.push("pkg/deep/bad.slice is reached and cannot be read (invalid UTF-8)".into());
+        e.why_io.push("a file that cannot be compiled is reached (pkg/deep/bad.slice: contents are not UTF-8; odd/n<0xFF>.slice: its name is not)".into());
     }
     e.dups_hi = if e.into_cycle { usize::MAX } else { e.dups_lo + error_repeats };
     let distinct: BTreeSet<&Id> = e.src_ids.iter().chain(ref_ids.iter()).collect();
@@ -968,7 +1003,7 @@ pub fn families(tier: &str) -> Vec<Box<dyn Family>> {
         Box::new(Lists::over("plain tree and tree {file-link, dir-link} x sources<=1 x references of 4..5 entries over 5 spellings (2 of one file, a directory)", pick(&|b| b == 0 || b == 6), (0, 1), (4, 5), Some(few_dir))),
     ];
     // entries that exist, are named *.slice and are neither a regular file nor a directory
-    let special: Box<dyn Family> = Box::new(Lists::new("trees {special-files} and {special-files, file-link, dir-link} (a FIFO pkg/pipe.slice, a link sub/null.slice to /dev/null) x sources<=2 x references<=2", vec![SPECIAL_BIT, SPECIAL_BIT | 6], (0, 2), (0, 2)));
+    let special: Box<dyn Family> = Box::new(Lists::new("trees {special-files} and {special-files, file-link, dir-link} (a FIFO pkg/pipe.slice, a link sub/null.slice to /dev/null, a file odd/n<0xFF>.slice whose name is not UTF-8 next to its lossy twin) x sources<=2 x references<=2", vec![SPECIAL_BIT, SPECIAL_BIT | 6], (0, 2), (0, 2)));
     let mut v: Vec<Box<dyn Family>> = if tier == "quick" {
         vec![
             Box::new(Lists::new("32 trees without the cycle x sources<=2 x references<=2", acyclic, (0, 2), (0, 2))),
